@@ -56,29 +56,53 @@ def check_smart_rotation(fx, R):
     Rx, Ry, Rz = rot.canon(x, y, z)
     want = Rz * Ry * Rx
     loc = fx.rel(md['init']['loc'])
+    # What a caller sees is decided: R() and operator*(T) are RUN on the state each path of init() leaves (first access after init), so a rotation
+    # composed on demand is judged by what it hands out, and an accessor that bypasses the on-demand step is caught.
+    T = mat.fresh('T', 3, 1)
+    observed = {}
     for tag, paths in (('fresh', md['fresh']), ('re-init', md['again'])):
         for n, st in enumerate(paths):
             desc = ' && '.join(('' if c[2] else '!') + '(' + c[0] + ')' for c in st.cond)
-            inst = 'SmartRotation3D::init:%s%s' % (tag, '' if len(paths) == 1 else '[%s]' % desc)
-            M = st.fields.get(('this', 'R_'))
             sub = rot.cond_subs(st)
-            res = sp.simplify((sp.Matrix(M) - want).subs(sub))
-            stale = sorted({s.name for s in res.free_symbols if s.name.startswith('old:')})
-            if res == sp.zeros(3, 3):
-                R.holds('R1', inst, 'R_ = Rz(z) Ry(y) Rx(x)', loc, 'E-ALG')
-            elif not stale:
-                # a residual that does not reduce is confirmed on witness angles of the QUANTIFIER before it is called a violation
-                alg.check_zero(R, res, 'R1', 'SmartRotation3D::init:formula' if True else inst, 'R_ - Rz Ry Rx = %s (should vanish)%s' % (res.tolist(), (' on path [%s]' % desc) if desc else ''),
-                               'R_ = Rz(z) Ry(y) Rx(x)', loc, domain=ANGLE_DOMAIN[0])
-            elif stale:
-                R.violated('R1', 'SmartRotation3D::init:stale-table', 'on the path [%s] init() does not rewrite %s: re-initialising an object keeps the elementary rotation of its previous angles, so R() is not '
-                           'the rotation of the new angles' % (desc, stale[:4]), loc, 'E-STATE')
-    # R4 on the fresh table
-    st = md['fresh'][0]
-    M = sp.Matrix(st.fields[('this', 'R_')])
-    ortho = sp.simplify(M.T * M - sp.eye(3))
-    det = sp.simplify(M.det())
-    alg.check_zero(R, sp.Matrix(list(ortho) + [det - 1]), 'R4', 'SmartRotation3D::R:proper', 'R^T R - I = %s, det = %s' % (ortho.tolist(), det), 'R^T R = I, det = 1', loc, domain=ANGLE_DOMAIN[0])
+            for acc, args, wanted, what in (('R', None, want, 'R()'), ('operator*', [T], want * T, 'operator*(T)')):
+                inst = 'SmartRotation3D::init:%s%s%s' % (tag, '' if len(paths) == 1 else '[%s]' % desc, '' if acc == 'R' else ':operator*')
+                try:
+                    ob = rot.observe(fx, st, acc, args=args, nparams=0 if acc == 'R' else 1)
+                except sym.Unsupported as u:
+                    R.undecided('R1', inst, '%s is not readable on the state init() leaves: %s' % (what, u))
+                    continue
+                if ob is None:
+                    R.undecided('R1', inst, '%s vanished' % what)
+                    continue
+                R.used(ob[1])
+                for (M, s2) in ob[0]:
+                    if not isinstance(M, sp.MatrixBase) or sp.Matrix(M).shape != sp.Matrix(wanted).shape:
+                        R.undecided('R1', inst, '%s does not return a readable matrix (%s)' % (what, type(M).__name__))
+                        continue
+                    if tag == 'fresh' and acc == 'R':
+                        observed.setdefault('R', M)
+                    res = sp.simplify((sp.Matrix(M) - wanted).subs(sub))
+                    stale = sorted({s.name for s in res.free_symbols if s.name.startswith('old:')})
+                    if res == sp.zeros(*res.shape):
+                        R.holds('R1', inst, '%s = Rz(z) Ry(y) Rx(x)%s on the state init() leaves' % (what, '' if acc == 'R' else ' T'), loc, 'E-ALG')
+                    elif not stale:
+                        # a residual that does not reduce is confirmed on witness angles of the QUANTIFIER before it is called a violation
+                        alg.check_zero(R, res, 'R1', 'SmartRotation3D::init:formula' + ('' if acc == 'R' else ':operator*'),
+                                       '%s - Rz Ry Rx%s = %s (should vanish)%s, first access after %s' % (what, '' if acc == 'R' else ' T', res.tolist(), (' on path [%s]' % desc) if desc else '',
+                                                                                                       'init() on a new object' if tag == 'fresh' else 'a re-initialisation'),
+                                       '%s = Rz(z) Ry(y) Rx(x)' % what, fx.rel(ob[1]['loc']) if acc != 'R' else loc, domain=ANGLE_DOMAIN[0])
+                    else:
+                        R.violated('R1', 'SmartRotation3D::init:stale-table' + ('' if acc == 'R' else ':operator*'), 'on the path [%s] %s after a re-initialisation still contains %s: entries an EARLIER init() wrote '
+                                   '(a table init() does not rewrite on this path, or a composed matrix that this accessor reads without the refresh the other accessors perform), so it is not the rotation of the new '
+                                   'angles' % (desc, what, stale[:4]), loc, 'E-STATE')
+    # R4 on what R() hands out for a new object
+    if isinstance(observed.get('R'), sp.MatrixBase):
+        M = sp.Matrix(observed['R'])
+        ortho = sp.simplify(M.T * M - sp.eye(3))
+        det = sp.simplify(M.det())
+        alg.check_zero(R, sp.Matrix(list(ortho) + [det - 1]), 'R4', 'SmartRotation3D::R:proper', 'R^T R - I = %s, det = %s' % (ortho.tolist(), det), 'R^T R = I, det = 1', loc, domain=ANGLE_DOMAIN[0])
+    else:
+        R.undecided('R4', 'SmartRotation3D::R:proper', 'R() not readable')
     # constructor / init(Vector) argument routing
     c3 = [f for f in fx.functions.values() if f.get('ctor') and f.get('cls') == NS + 'SmartRotation3D' and len(f['params']) == 3]
     cv = [f for f in fx.functions.values() if f.get('ctor') and f.get('cls') == NS + 'SmartRotation3D' and len(f['params']) == 1 and not f.get('copyctor')]
@@ -98,10 +122,16 @@ def check_smart_rotation(fx, R):
         except sym.Unsupported as u:
             R.undecided('R2', 'SmartRotation3D(%d args):value' % len(cf['params']), str(u))
             continue
+        seen_ = []
         for st_ in cst:
-            Mx = st_.fields.get(('this', 'R_'))
+            try:
+                ob_ = rot.observe(fx, st_, 'R', nparams=0)
+            except sym.Unsupported as u:
+                ob_ = None
+            seen_ += [m_ for (m_, _s) in (ob_[0] if ob_ else [(None, None)])]
+        for Mx in seen_:
             if not isinstance(Mx, sp.MatrixBase):
-                R.undecided('R2', 'SmartRotation3D(%d args):value' % len(cf['params']), 'R_ not readable')
+                R.undecided('R2', 'SmartRotation3D(%d args):value' % len(cf['params']), 'R() not readable on the constructed object')
                 continue
             if len(cf['params']) == 3:
                 a_ = [sp.Symbol('arg:' + p['name'], real=True) for p in cf['params']]
@@ -112,16 +142,13 @@ def check_smart_rotation(fx, R):
             garbage = sorted({s_.name for s_ in sp.Matrix(Mx).free_symbols if s_ not in a_})
             inst_ = 'SmartRotation3D(%s):value' % ('x,y,z' if len(cf['params']) == 3 else 'angles')
             if garbage:
-                R.violated('R2', inst_, 'after this constructor R_ depends on %s: entries of the elementary tables that no constructor on this path initialises (fixed-size Eigen matrices are not '
+                R.violated('R2', inst_, 'after this constructor R() depends on %s: entries of the elementary tables that no constructor on this path initialises (fixed-size Eigen matrices are not '
                            'zero-initialised, init() writes only the angle-dependent entries), so the matrix is not the rotation of the angles, nor a rotation at all' % garbage[:6], fx.rel(cf['loc']), 'E-STATE')
             else:
-                alg.check_zero(R, res_, 'R2', inst_, 'R_ - Rz Ry Rx = %s for the constructor arguments' % (res_.tolist(),), 'R_ = Rz Ry Rx of the constructor arguments', fx.rel(cf['loc']), domain=ANGLE_DOMAIN[0])
+                alg.check_zero(R, res_, 'R2', inst_, 'R() - Rz Ry Rx = %s for the constructor arguments' % (res_.tolist(),), 'R() = Rz Ry Rx of the constructor arguments', fx.rel(cf['loc']), domain=ANGLE_DOMAIN[0])
     if len(iv) == 1:
         okv = stmts_sx(iv[0]) == [('expr', ('.init', 'this', ('[]', 'angles', 0), ('[]', 'angles', 1), ('[]', 'angles', 2)))]
         R.form(okv, 'R2', 'SmartRotation3D::init(angles)', 'init(Vector) is %s' % (stmts_sx(iv[0]),), 'init(angles[0], angles[1], angles[2])', fx.rel(iv[0]['loc']), 'E-SIB')
-    fr = fx.one(rot.Q + 'R')
-    if fr is not None:
-        R.form(stmts_sx(fr) == [('return', 'this.R_')], 'R1', 'SmartRotation3D::R', 'R() returns %s' % (stmts_sx(fr),), 'returns R_', fx.rel(fr['loc']), 'E-SIB')
 
 
 def fn1(fx, name, S, sig_part=None):
